@@ -602,6 +602,10 @@ pre = hdr_body[:icc.start()]
 f9_fixed = bool(icc.group(2)) or bool(re.search(r"this->tempICCBuf\s*=\s*NULL", pre)) or bool(re.search(r"this->tempICCSize\s*=\s*0", pre))
 
 f10_fixed = bool(re.search(r"master->lossless\s*=\s*FALSE", dyp + sdd))
+f12_fixed = bool(re.search(r"saw_Adobe_marker\s*=\s*FALSE", dyp + sdd)) and bool(re.search(r"saw_JFIF_marker\s*=\s*FALSE", dyp + sdd))
+ddp_body = preprocess(func_body(jdapimin, "default_decompress_parms"), dict(BASE_DEFS))
+if not re.search(r"cinfo->saw_JFIF_marker", ddp_body) or not re.search(r"cinfo->saw_Adobe_marker", ddp_body):
+    sys.exit("default_decompress_parms no longer derives the colour space from saw_JFIF_marker / saw_Adobe_marker")
 
 ms_body = func_body(preprocess(jdmaster, dict(BASE_DEFS)), "master_selection") or sys.exit("master_selection not found")
 rd_body = func_body(preprocess(jdapistd, dict(BASE_DEFS)), "read_and_discard_scanlines") or sys.exit("read_and_discard_scanlines not found")
@@ -721,6 +725,8 @@ print("(* tj3DecompressHeader discards a previously extracted ICC profile when t
 print("Definition header_discards_old_icc : bool := %s." % str(f9_fixed).lower())
 print("(* tj3DecodeYUVPlanes8 / setDecodeDefaults reset dinfo->master->lossless (F10 fixed) *)")
 print("Definition decodeyuv_resets_lossless : bool := %s." % str(f10_fixed).lower())
+print("(* tj3DecodeYUVPlanes8 / setDecodeDefaults reset saw_JFIF_marker and saw_Adobe_marker, from which default_decompress_parms derives the colour space (F12 fixed) *)")
+print("Definition decodeyuv_resets_marker_flags : bool := %s." % str(f12_fixed).lower())
 print("(* read_and_discard_scanlines cannot see a colour converter of an earlier image (F5 fixed) *)")
 print("Definition skip_ignores_stale_cconvert : bool := %s." % str(f5_fixed).lower())
 print("(* tj3Compress*: setCompDefaults is called before jpeg_mem_dest_tj *)")
